@@ -20,7 +20,7 @@ from pathlib import Path
 
 VERIF = Path(__file__).resolve().parent.parent
 REPO = Path(os.environ.get('PYXTUML_REPO', '/repo'))
-LEAN_DIR = VERIF / 'lean'
+LEAN_DIR = Path(os.environ.get('PYXVERIF_LEAN_DIR', str(VERIF / 'lean')))
 SCRATCH_ROOT = os.environ.get('PYXVERIF_SCRATCH', '/var/tmp')
 ALLOWED_AXIOMS = {'propext', 'Classical.choice', 'Quot.sound'}
 FORBIDDEN = re.compile(r'\bsorry\b|\badmit\b|^\s*axiom\s|native_decide|bv_decide|implemented_by|'
